@@ -17,7 +17,8 @@ LEVEL_TEXT = (
     'upper case, zero padding), proved by arithmetic over the digit functions for all integers, plus a kernel '
     'decision of the whole binary window x places 1..10 and decide-obligations on the generated tables and the '
     'function registry. The model is tied to the running code by an exhaustive binary-window run, window edges, '
-    'sampled 40-bit integers, every invalid digit-string class, direct calls and through formulas.')
+    'sampled 40-bit integers, every invalid digit-string class, direct calls, through formulas, and through '
+    'histories on one re-used compiled model whose input cells are overwritten with set_cell_value.')
 LEVEL_NOTE = (
     'Trusted: Lean kernel (axioms propext, Classical.choice, Quot.sound), the translator that prints the tables, '
     'the hand-written model (validated by correspondence, not proved equal to the Python), hand models of the '
@@ -486,6 +487,116 @@ def via_formulas(cases, FUNCS, res):
                                        'expected': direct, 'got': got})
 
 
+# ---------------------------------------------------------------- histories on one compiled model
+
+# values an input cell takes one after the other: type twins (Python: 1 == True == 1.0, 0 == False == 0.0,
+# but Number / Boolean / Text are different arguments), digit strings that are also numbers, window edges
+NUMBER_TWINS = [1, True, 1.0, '1', 0, False, 0.0, '0', 10, '10', 10.0, 11, 1.5, '1.5',
+                511, 512, -512, -513, '777', 777, 'FF', 'ff',
+                (1 << 29) - 1, 1 << 29, -(1 << 29), -(1 << 29) - 1,
+                (1 << 39) - 1, 1 << 39, -(1 << 39), -(1 << 39) - 1,
+                1111111111, '1111111111', '7777777777', 'FFFFFFFFFF', -1, '-1']
+PLACES_TWINS = [1, True, 1.0, 0, False, 0.0, 10, 10.0, 11, 3, 3.0, 8, -1, '3', 2]
+
+
+def euler_walk(values):
+    """A sequence over `values` in which every ordered pair (a, b), a == b included, occurs as two
+    consecutive elements (Eulerian circuit of the complete digraph with loops)."""
+    m = len(values)
+    nxt = [0] * m
+    stack, circuit = [0], []
+    while stack:
+        v = stack[-1]
+        if nxt[v] < m:
+            w = nxt[v]
+            nxt[v] += 1
+            stack.append(w)
+        else:
+            circuit.append(stack.pop())
+    return [values[i] for i in reversed(circuit)]
+
+
+def via_history(ctx, FUNCS, driver, res, thorough):
+    """Arguments supplied through the cells of ONE compiled model that are overwritten with
+    Evaluator.set_cell_value between evaluations.  Whatever a cell held before, every function must return
+    what the reference semantics demands of the value the cell holds NOW (and what the direct call returns)."""
+    from xlcalculator import ModelCompiler, Evaluator
+    forms = []
+    for fn in ALL_FNS:
+        forms.append((fn, False))
+        if takes_places(fn):
+            forms.append((fn, True))
+    cells = {'Sheet1!A1': 5, 'Sheet1!B1': 3}
+    addr_of = {}
+    for i, (fn, with_places) in enumerate(forms, 1):
+        addr_of[(fn, with_places)] = f'Sheet1!C{i}'
+        cells[f'Sheet1!C{i}'] = f'={fn}(A1,B1)' if with_places else f'={fn}(A1)'
+
+    rng = ctx.rng
+    histories = []           # lists of (cell, value)
+    # every ordered pair of number twins in A1 (places fixed), every ordered pair of places twins in B1
+    histories.append([('B1', 10)] + [('A1', v) for v in euler_walk(NUMBER_TWINS)])
+    for number in (1, 0, 5, -5, '101'):
+        histories.append([('A1', number)] + [('B1', v) for v in euler_walk(PLACES_TWINS)])
+    # random joint histories
+    for _ in range(40 if thorough else 6):
+        h = []
+        for _ in range(400 if thorough else 150):
+            if rng.random() < 0.6:
+                v = rng.choice(NUMBER_TWINS) if rng.random() < 0.7 else sample_integer(rng)
+                h.append(('A1', v))
+            else:
+                h.append(('B1', rng.choice(PLACES_TWINS)))
+        histories.append(h)
+
+    observed = []            # (fn, number, places, got, previous, cell)
+    for h in histories:
+        ev = Evaluator(ModelCompiler().read_and_parse_dict(dict(cells)))
+        cur = {'A1': 5, 'B1': 3}
+        for k, (cell, value) in enumerate(h):
+            prev = cur[cell]
+            ev.set_cell_value('Sheet1!' + cell, value)
+            cur[cell] = value
+            # after a places change only the formulas that read B1 can change; all are evaluated every
+            # few steps anyway
+            for (fn, with_places), addr in addr_of.items():
+                if cell == 'B1' and not with_places and k % 8:
+                    continue
+                got = call_real(ev.evaluate, addr)
+                observed.append((fn, cur['A1'], cur['B1'] if with_places else MISSING, got, prev, cell))
+
+    triples = sorted({(fn, repr(n), repr(p)): (fn, n, p) for fn, n, p, _, _, _ in observed}.items())
+    lines = [line_of(*t) for _, t in triples]
+    spec_of = {}
+    for (key, _), r in zip(triples, driver.batch(lines)):
+        d = parse_kv(r)
+        if 'spec' not in d:
+            raise RuntimeError(f'driver: {r!r}')
+        spec_of[key] = d['spec']
+    direct_of = {key: real_of(FUNCS, *t) for key, t in triples}
+    for fn, number, places, got, prev, cell in observed:
+        key = (fn, repr(number), repr(places))
+        spec, direct = spec_of[key], direct_of[key]
+        res.evaluations += 1
+        res.count('kind:history(set_cell_value)')
+        if nontrivial(spec):
+            res.nontrivial.add(('history',) + key + (repr(prev),))
+        inp = {'route': 'one compiled model, input cells overwritten with set_cell_value',
+               'formula': f'={fn}(A1' + ('' if places == MISSING else ',B1') + ')',
+               'fn': fn, 'number': number, 'places': places, 'cell_set_last': cell, 'its_previous_value': prev}
+        ok = meets(got, spec)
+        if ok is False:
+            res.violations.append({'what': f'{fn} on a re-used model disagrees with the reference for the '
+                                           'value the cell holds now',
+                                   'input': inp, 'expected': spec, 'got': got})
+        elif got != direct and not (same_value(got, direct) and got[:2] == direct[:2]):
+            res.violations.append({'what': f'{fn} on a re-used model differs from the direct call on the '
+                                           'current cell values',
+                                   'input': inp, 'expected': direct, 'got': got})
+    res.sample({'route': 'history', 'steps': sum(len(h) for h in histories), 'observations': len(observed)},
+               limit=14)
+
+
 # ---------------------------------------------------------------- registry (defect D49) and tables
 
 TWELVE = sorted(ALL_FNS)
@@ -544,7 +655,11 @@ def run(ctx):
         'processes) through DEC2BIN/OCT/HEX and through the three readers of one origin base, plus the real '
         'round trip X2DEC(DEC2X(n)) = n; digit strings and numbers of every invalid class (foreign digits, '
         'blanks, signs, fractions, Python literal prefixes, punctuation, non-ASCII, too long, lower case, empty); '
-        'boolean number/places; a sample of all of it through formulas (cell references and literals). Oracle: '
+        'boolean number/places; a sample of all of it through formulas (cell references and literals); histories '
+        'on ONE compiled model: the number cell and the places cell are overwritten with set_cell_value (every '
+        'ordered pair of the type twins 1/TRUE/1.0/"1", 0/FALSE/0.0/"0", digit strings that are also numbers, '
+        'the edges of all three windows; random joint histories) and all 21 formulas =FN(A1) / =FN(A1,B1) are '
+        're-evaluated against the reference for the value held now and against the direct call. Oracle: '
         'the Lean Spec (real vs Spec decides; real vs model is drift). Non-trivial = distinct (function, number, '
         'places) whose reference result is an error, a non-zero number or a digit string other than "0".')
     thorough = ctx.tier == 'thorough' or ctx.widen
@@ -638,6 +753,9 @@ def run(ctx):
         step = max(1, len(pool_cases) // 3000)
         pool_cases = pool_cases[::step]
     via_formulas(pool_cases, FUNCS, res)
+
+    # histories: one compiled model, input cells overwritten between evaluations
+    via_history(ctx, FUNCS, driver, res, thorough)
 
     if res.distribution.get('model-drift'):
         res.notes.append(f"{res.distribution['model-drift']} model/implementation differences where the code "
